@@ -252,7 +252,7 @@ def run_scenario(sc, chooser=None, seed=0, max_steps=3000, rewait_limit=12):
     for vt in sched.vts:
         if vt.exc is not None and not isinstance(vt.exc, Boom):
             viol.append("unexpected exception in %s: %r" % (vt.name, vt.exc))
-    return {"lines": lines, "outcome": outcome, "monitor": viol, "c20": known, "choices": list(sched.choices),
+    return {"lines": lines, "outcome": outcome, "monitor": viol, "c20": known, "choices": list(sched.choices), "cand_counts": list(sched.cand_counts),
             "steps": sched.steps, "switches": sched.context_switches, "stuck": stuck, "wait_calls": st["wait_calls"]}
 
 
